@@ -521,6 +521,8 @@ def locked_out(env, exc, label):
         return None
     if any(r.close_refused for r in env.rec.conns):
         return None        # a connection the plan refused to close may still hold its file lock: not Pony's doing
+    if any(e['fault'] == 'after' and (e['sql'] or '').startswith('BEGIN') for e in env.rec.indexed()):
+        return None        # the plan reported a BEGIN as failed although it was performed: nobody can know about that transaction
     text = str(exc).lower()
     if 'database is locked' in text or 'table is locked' in text:
         hint = ''
